@@ -393,6 +393,134 @@ def rule_every_input_read(ctx, rep):
         raise AnalysisError(f"only {n} accumulating loops found in the result readers")
 
 
+LAZY_CALLS = {"map", "filter", "zip", "iter", "chain", "reversed", "enumerate", "islice", "from_iterable", "finditer", "iglob", "rglob", "glob", "scandir", "iterdir", "takewhile", "dropwhile"}
+
+
+def rule_one_shot_iter(ctx, rep, rule_id="R-ONE-SHOT-ITER"):
+    rep.rule(
+        rule_id,
+        "a name bound once to a one-shot iterator (generator expression, map/filter/zip/chain/finditer/rglob ...) is consumed at most once on "
+        "any path: a second consumer (the loop that files the findings, after a logging helper has walked the generator) sees nothing, "
+        "silently.  Uses in mutually exclusive branches count once",
+        min_instances=3,
+    )
+    n = 0
+    for fn in ctx.prog.live_functions():
+        binds: dict[str, list[ast.Assign]] = {}
+        for a in walk_no_nested(fn.node):
+            if isinstance(a, ast.Assign) and len(a.targets) == 1 and isinstance(a.targets[0], ast.Name):
+                binds.setdefault(a.targets[0].id, []).append(a)
+            elif isinstance(a, (ast.AugAssign, ast.AnnAssign, ast.NamedExpr, ast.For)) and isinstance(getattr(a, "target", None), ast.Name):
+                binds.setdefault(a.target.id, []).append(a)
+        pm = None
+        for name, defs in binds.items():
+            if len(defs) != 1 or not isinstance(defs[0], ast.Assign):
+                continue
+            v = defs[0].value
+            lazy = isinstance(v, ast.GeneratorExp) or (isinstance(v, ast.Call) and (last_attr(v.func) or "") in LAZY_CALLS)
+            if not lazy:
+                continue
+            n += 1
+            uses = [x for x in walk_no_nested(fn.node) if isinstance(x, ast.Name) and x.id == name and isinstance(x.ctx, ast.Load)]
+            bad = None
+            if len(uses) >= 2:
+                if pm is None:
+                    pm = {}
+                    for p_ in ast.walk(fn.node):
+                        for fld in ("body", "orelse", "finalbody"):
+                            blk = getattr(p_, fld, None)
+                            for c in (blk if isinstance(blk, list) else []):
+                                pm[id(c)] = (p_, fld)
+                        for c in ast.iter_child_nodes(p_):
+                            pm.setdefault(id(c), (p_, "expr"))
+
+                def branches(x):
+                    out = {}
+                    cur = x
+                    while id(cur) in pm:
+                        par, fld = pm[id(cur)]
+                        if isinstance(par, ast.If) and fld in ("body", "orelse"):
+                            out[id(par)] = fld
+                        cur = par
+                    return out
+
+                for i, a_ in enumerate(uses):
+                    for b_ in uses[i + 1:]:
+                        ba, bb = branches(a_), branches(b_)
+                        if any(k in bb and bb[k] != f for k, f in ba.items()):
+                            continue
+                        bad = (a_, b_)
+            rep.check(rule_id, fn.qname, fn.loc(bad[1]) if bad else fn.loc(defs[0]), bad is None, f"iter:{name}",
+                      f"`{name}` is a one-shot iterator (`{unparse(v)[:50]}`) and is consumed at line {fn.loc(bad[0]).split(':')[-1]} and again here: the second consumer gets nothing" if bad else "")
+    if n < 3:
+        raise AnalysisError(f"only {n} names bound to one-shot iterators found")
+
+
+READER_MODULES = ("codemodder.result", "codemodder.sarifs", "codemodder.semgrep", "codemodder.codemods.semgrep", "codemodder.codeql", "codemodder.codemods.codeql",
+                  "core_codemods.sonar.results", "core_codemods.defectdojo.results", "core_codemods.semgrep.api")
+
+
+def rule_index_zero(ctx, rep, rule_id="R-INDEX-ZERO"):
+    rep.rule(
+        rule_id,
+        "in the result readers a SARIF *index* (`toolComponent.index`, `rule.index`, `ruleIndex`: zero-based, 0 is the first extension / rule) is "
+        "never tested by truthiness (`if idx`, `idx or d`, `a if idx else b`): absence is tested with `is None` / `in`.  `if tool_index` sends a "
+        "reference to extension 0 to the driver's rules, and the finding is filed under a foreign rule id",
+        min_instances=2,
+    )
+    n = 0
+    for fn in ctx.prog.live_functions():
+        if not fn.module.name.startswith(READER_MODULES):
+            continue
+        idx_names = set()
+        idx_exprs = []
+        for a in walk_no_nested(fn.node):
+            v = getattr(a, "value", None) if isinstance(a, (ast.Assign, ast.AnnAssign, ast.NamedExpr)) else None
+            if v is None:
+                continue
+            keyed = any(isinstance(c, ast.Constant) and isinstance(c.value, str) and c.value.lower().endswith("index") for c in ast.walk(v)
+                        if isinstance(c, ast.Constant))
+            last_key = None
+            e = v
+            while isinstance(e, ast.Call) and isinstance(e.func, ast.Attribute) and e.func.attr == "get" and e.args:
+                last_key = e.args[0]
+                break
+            if isinstance(v, ast.Subscript):
+                last_key = v.slice
+            is_index = isinstance(last_key, ast.Constant) and isinstance(last_key.value, str) and last_key.value.lower().endswith("index")
+            if is_index and keyed:
+                tg = a.targets if isinstance(a, ast.Assign) else [a.target]
+                for t in tg:
+                    if isinstance(t, ast.Name):
+                        idx_names.add(t.id)
+        if not idx_names:
+            continue
+        for name in sorted(idx_names):
+            n += 1
+            bad = None
+            for x in walk_no_nested(fn.node):
+                tests = []
+                if isinstance(x, (ast.If, ast.While, ast.IfExp)):
+                    tests.append(x.test)
+                elif isinstance(x, ast.BoolOp):
+                    tests += x.values[:-1] if isinstance(x.op, ast.Or) else x.values
+                elif isinstance(x, ast.UnaryOp) and isinstance(x.op, ast.Not):
+                    tests.append(x.operand)
+                elif isinstance(x, ast.Assert):
+                    tests.append(x.test)
+                for t in tests:
+                    if isinstance(t, ast.Name) and t.id == name:
+                        bad = x
+                    elif isinstance(t, ast.BoolOp):
+                        for v_ in t.values:
+                            if isinstance(v_, ast.Name) and v_.id == name:
+                                bad = x
+            rep.check(rule_id, fn.qname, fn.loc(bad) if bad is not None else fn.loc(), bad is None, f"index:{name}",
+                      f"`{unparse(bad)[:70].splitlines()[0] if bad is not None else ''}` decides by the truthiness of the zero-based index `{name}`: index 0 is treated as missing")
+    if n < 2:
+        raise AnalysisError(f"only {n} SARIF index lookups found in the readers (2 confirmed by hand in SarifResult.extract_rule_id)")
+
+
 def check(ctx, rep):
     rep.explanation = (
         "The operator each accumulation loop actually dispatches to is resolved through the ResultSet MRO (including the "
@@ -407,4 +535,6 @@ def check(ctx, rep):
     rule_merge_no_alias(ctx, rep)
     rule_sonar_component(ctx, rep)
     rule_every_input_read(ctx, rep)
+    rule_one_shot_iter(ctx, rep)
+    rule_index_zero(ctx, rep)
     rep.not_covered += ["equality of parsed findings with a reference extraction for arbitrary documents", "SARIF tool detection per run"]
